@@ -1050,21 +1050,6 @@ Proof.
   - inversion Ep; subst. inversion Hl; subst. congruence.
 Qed.
 
-(** The publication shortcut serves the caller as the publisher that carries the caller's CA handle. *)
-Theorem local8181_serves_own_handle rp cl q rp' out h :
-  local8181 rp cl q = (rp', out) -> acted_for out = Some h -> h = cl_handle cl.
-Proof.
-  unfold local8181. destruct (serve8181 rp (cl_handle cl) q) as [[rp1 [| |rep|]]|];
-    intros H Ha; inversion H; subst; cbn in Ha; congruence.
-Qed.
-
-Theorem local8181_effects_confined rp cl q rp' out :
-  local8181 rp cl q = (rp', out) -> confined8181 (cl_handle cl) rp rp' \/ rp' = rp.
-Proof.
-  unfold local8181. destruct (serve8181 rp (cl_handle cl) q) as [[rp1 res]|] eqn:Es; [|intros H; inversion H; auto].
-  apply serve8181_confined in Es. destruct res; intros H; inversion H; subst; auto.
-Qed.
-
 (** * Non-vacuity: concrete states meeting the hypotheses of the implication theorems *)
 Definition ex_parent : parent :=
   mkParent 1 10 [(0, mkRC (Some 255) [(5, mkIC 3 None)] [])]
@@ -1156,34 +1141,142 @@ Example oracle_rejects_wrong_key_served :
   c12_ok (C6492 ex_parent 9 m false false (fst r) (snd r)) = false.
 Proof. vm_compute. reflexivity. Qed.
 
-(** * The publication shortcut, three-part form (candidate F12b) *)
-Definition local8181_acts_only_for_registered_key : Prop :=
+(** * The publication shortcut *)
+
+Definition local8181_acts_only_for_registered_key_on (lp : repo -> caller -> query -> repo * outcome preply) : Prop :=
   forall rp cl q rp' out h,
-    local8181 rp cl q = (rp', out) -> acted_for out = Some h ->
+    lp rp cl q = (rp', out) -> acted_for out = Some h ->
     exists pb, aget h (r_pubs rp) = Some pb /\ pb_id pb = cl_id cl.
 
-(** Witness: the publisher 7 was registered with ID key 70 (a remote CA) and holds one object; a CA
-    of the same instance that is also called 7 but has the ID key 99 withdraws it. *)
-Theorem local8181_path_refuted : ~ local8181_acts_only_for_registered_key.
+Lemma local8181_pinned_serves_own_handle rp cl q rp' out h :
+  local8181_pinned rp cl q = (rp', out) -> acted_for out = Some h -> h = cl_handle cl.
+Proof.
+  unfold local8181_pinned. destruct (serve8181 rp (cl_handle cl) q) as [[rp1 [| |rep|]]|];
+    intros H Ha; inversion H; subst; cbn in Ha; congruence.
+Qed.
+
+(** What the repaired shortcut does, case by case. *)
+Lemma local8181_cases rp cl q :
+  local8181 rp cl q = (rp, Refused) \/
+  (exists pb, aget (cl_handle cl) (r_pubs rp) = Some pb /\ pb_id pb = cl_id cl /\ q <> QReply /\
+              local8181 rp cl q = local8181_pinned rp cl q).
+Proof.
+  unfold local8181. destruct q as [|d|]; [| |left; reflexivity];
+    (destruct (aget (cl_handle cl) (r_pubs rp)) as [pb|]; [|left; reflexivity];
+     destruct (pb_id pb =? cl_id cl) eqn:E; [|left; reflexivity];
+     apply N.eqb_eq in E; right; exists pb; repeat split; auto; discriminate).
+Qed.
+
+(** *** The repaired tree: the property holds on the local publication path. *)
+Theorem local8181_acts_only_for_registered_key : local8181_acts_only_for_registered_key_on local8181.
+Proof.
+  intros rp cl q rp' out h Hl Ha. destruct (local8181_cases rp cl q) as [R|[pb (A & B & _ & E)]].
+  - rewrite R in Hl. inversion Hl; subst. discriminate.
+  - rewrite E in Hl. pose proof (local8181_pinned_serves_own_handle _ _ _ _ _ _ Hl Ha) as ->. eauto.
+Qed.
+
+Theorem local8181_serves_own_handle rp cl q rp' out h :
+  local8181 rp cl q = (rp', out) -> acted_for out = Some h -> h = cl_handle cl.
+Proof.
+  intros Hl Ha. destruct (local8181_cases rp cl q) as [R|[pb (_ & _ & _ & E)]].
+  - rewrite R in Hl. inversion Hl; subst. discriminate.
+  - rewrite E in Hl. eapply local8181_pinned_serves_own_handle; eauto.
+Qed.
+
+Theorem local8181_wrong_key_refused rp cl q :
+  (forall pb, aget (cl_handle cl) (r_pubs rp) = Some pb -> pb_id pb <> cl_id cl) ->
+  local8181 rp cl q = (rp, Refused).
+Proof.
+  intros H. destruct (local8181_cases rp cl q) as [R|[pb (A & B & _)]]; [exact R|]. destruct (H pb A B).
+Qed.
+
+Theorem local8181_refused_no_change rp cl q rp' : local8181 rp cl q = (rp', Refused) -> rp' = rp.
+Proof.
+  destruct (local8181_cases rp cl q) as [R|[pb (_ & _ & _ & E)]]; [congruence|]. rewrite E.
+  unfold local8181_pinned. destruct (serve8181 rp (cl_handle cl) q) as [[rp1 [| |rep|]]|]; congruence.
+Qed.
+
+Theorem local8181_effects_confined rp cl q rp' out :
+  local8181 rp cl q = (rp', out) -> confined8181 (cl_handle cl) rp rp' \/ rp' = rp.
+Proof.
+  destruct (local8181_cases rp cl q) as [R|[pb (_ & _ & _ & E)]]; [rewrite R; intros H; inversion H; auto|].
+  rewrite E. unfold local8181_pinned.
+  destruct (serve8181 rp (cl_handle cl) q) as [[rp1 res]|] eqn:Es; [|intros H; inversion H; auto].
+  apply serve8181_confined in Es. destruct res; intros H; inversion H; subst; auto.
+Qed.
+
+(** The shortcut is the remote path fed with the message the caller would have signed with its own ID
+    key and posted to the URL of the publisher that carries its handle (for a query; a message that
+    is no query fails on the local path before any key is looked at). *)
+Theorem local8181_equals_remote validate rp cl q :
+  cms_sound validate -> q <> QReply ->
+  let m := mkMsg (cl_handle cl) 0 q (cl_id cl) true in
+  fst (local8181 rp cl q) = fst (rfc8181 validate rp m) /\
+  match snd (local8181 rp cl q), snd (rfc8181 validate rp m) with
+  | Served h1 r1, Served h2 r2 => h1 = h2 /\ payload r1 = payload r2
+  | Errored h1, Errored h2 | Failed h1, Failed h2 => h1 = h2
+  | Panicked, Panicked | Refused, Refused => True
+  | _, _ => False
+  end.
+Proof.
+  intros Hs Hq m. unfold rfc8181. cbn [sender payload m].
+  assert (L : local8181 rp cl q = match aget (cl_handle cl) (r_pubs rp) with
+                                  | None => (rp, Refused)
+                                  | Some pb => if pb_id pb =? cl_id cl then local8181_pinned rp cl q else (rp, Refused) end).
+  { unfold local8181. destruct q; congruence. }
+  rewrite L. destruct (aget (cl_handle cl) (r_pubs rp)) as [pb|]; [|cbn; auto].
+  destruct (pb_id pb =? cl_id cl) eqn:E.
+  - apply N.eqb_eq in E.
+    assert (V : validate (pb_id pb) m = true) by (apply Hs; split; [cbn; congruence|reflexivity]).
+    rewrite V. unfold local8181_pinned.
+    destruct (serve8181 rp (cl_handle cl) q) as [[rp1 [| |rep|]]|]; cbn; auto.
+  - apply N.eqb_neq in E. destruct (validate (pb_id pb) m) eqn:V; [|cbn; auto].
+    apply Hs in V. destruct V as [V _]. cbn in V. congruence.
+Qed.
+
+(** *** Regression witness: the originally pinned publication shortcut (finding F12b, fixed by 346cb17c).
+    The publisher 7 was registered with ID key 70 (a remote CA) and holds one object; a CA of the same
+    instance that is also called 7 but has the ID key 99 withdrew it. The repaired path refuses. *)
+Definition f12b_repo : repo := mkRepo 50 [(7, mkPub 70 [7] [([7; 1], 5)])] 0.
+Definition f12b_caller : caller := mkCaller 7 99 0.
+
+Theorem local8181_pinned_refuted : ~ local8181_acts_only_for_registered_key_on local8181_pinned.
 Proof.
   intros H.
-  destruct (H (mkRepo 50 [(7, mkPub 70 [7] [([7; 1], 5)])] 0) (mkCaller 7 99 0) (QDelta [EWdr [7; 1] 5]) _ _ 7 eq_refl eq_refl)
-    as [pb [A B]].
+  destruct (H f12b_repo f12b_caller (QDelta [EWdr [7; 1] 5]) _ _ 7 eq_refl eq_refl) as [pb [A B]].
   cbn in A. inversion A; subst. cbn in B. discriminate.
 Qed.
 
-Theorem local8181_acts_only_when_handle_matches rp cl q rp' out h :
+Example f12b_pinned_outcome :
+  local8181_pinned f12b_repo f12b_caller (QDelta [EWdr [7; 1] 5]) =
+  (mkRepo 50 [(7, mkPub 70 [7] [])] 1, Served 7 (mkMsg 0 0 PSuccess 0 true)).
+Proof. vm_compute. reflexivity. Qed.
+
+Example f12b_repaired_outcome :
+  local8181 f12b_repo f12b_caller (QDelta [EWdr [7; 1] 5]) = (f12b_repo, Refused) /\
+  local8181 f12b_repo f12b_caller QList = (f12b_repo, Refused).
+Proof. split; vm_compute; reflexivity. Qed.
+
+(** What was true of the pinned shortcut: it was right exactly when handle and registration matched. *)
+Theorem local8181_pinned_acts_only_when_handle_matches rp cl q rp' out h :
   publisher_handle_matches_registration rp cl ->
-  local8181 rp cl q = (rp', out) -> acted_for out = Some h ->
+  local8181_pinned rp cl q = (rp', out) -> acted_for out = Some h ->
   exists pb, aget h (r_pubs rp) = Some pb /\ pb_id pb = cl_id cl.
 Proof.
-  intros Hm Hl Ha. pose proof (local8181_serves_own_handle _ _ _ _ _ _ Hl Ha) as ->.
-  unfold local8181, serve8181 in Hl. destruct (aget (cl_handle cl) (r_pubs rp)) as [pb|] eqn:E.
+  intros Hm Hl Ha. pose proof (local8181_pinned_serves_own_handle _ _ _ _ _ _ Hl Ha) as ->.
+  unfold local8181_pinned, serve8181 in Hl. destruct (aget (cl_handle cl) (r_pubs rp)) as [pb|] eqn:E.
   - exists pb. split; [reflexivity|apply Hm; exact E].
   - inversion Hl; subst. discriminate.
 Qed.
 
-Example local8181_restricted_nonvacuous :
-  publisher_handle_matches_registration ex_repo (mkCaller 2 20 0) /\
-  snd (local8181 ex_repo (mkCaller 2 20 0) QList) = Served 2 (mkMsg 0 0 (PList [([2; 100], 1)]) 0 true).
-Proof. split; [|vm_compute; reflexivity]. intros pb H. cbn in H. inversion H; reflexivity. Qed.
+Example local8181_nonvacuous :
+  (* the CA 2 with the ID key 20 registered for publisher 2 is served; with another ID key it is refused *)
+  snd (local8181 ex_repo (mkCaller 2 20 0) QList) = Served 2 (mkMsg 0 0 (PList [([2; 100], 1)]) 0 true) /\
+  local8181 ex_repo (mkCaller 2 21 0) QList = (ex_repo, Refused) /\
+  fst (local8181 ex_repo (mkCaller 2 20 0) (QDelta [EWdr [2; 100] 1])) <> ex_repo.
+Proof. split; [vm_compute; reflexivity|]. split; [vm_compute; reflexivity|vm_compute; discriminate]. Qed.
+
+Example oracle_flags_f12b :
+  agrees f12b_case = false /\ c12_ok f12b_case = false /\
+  agrees f12b_repaired_case = true /\ c12_ok f12b_repaired_case = true /\ c12_confined f12b_repaired_case = true.
+Proof. vm_compute. repeat split; reflexivity. Qed.
